@@ -1011,6 +1011,14 @@ func (dsc *dataStoreCommand) persist(keyName string) (output respValue) {
 	return
 }
 
+// the key count belongs to the data store, so it is read under the data store lock
+func (dsc *dataStoreCommand) dbSize() respInt {
+	dsc.lock()
+	defer dsc.unlock()
+
+	return respInt(dsc.ds.data.count)
+}
+
 func (dsc *dataStoreCommand) randomKey() (output respValue) {
 	dsc.lock()
 	defer dsc.unlock()
